@@ -5,6 +5,7 @@
    the model instantiated at A := N), the distances against this model over exact rationals (Qops). *)
 From Coq Require Import List Arith NArith ZArith QArith Bool Reals Qreals.
 From Similari Require Import Base.Num.
+From SimilariGen Require Import Consts.
 Import ListNotations.
 Close Scope Q_scope.
 Close Scope R_scope.
@@ -29,7 +30,9 @@ Close Scope R_scope.
    impl FromVec<&Feature, Vec<f32>> for Vec<f32> {
        fn from_vec(vec: &Feature) -> Vec<f32> { for e in vec { res.extend_from_slice(e.as_array_ref()); } res } }  *)
 
-Definition LANES : nat := 8.     (* FEATURE_LANES_SIZE; tools/props/c16.py checks the constant in src/track.rs *)
+(* FEATURE_LANES_SIZE of src/track.rs, translated on every run (gen/Consts.v).  The block type below is an 8-tuple:
+   Props/C16.v proves `lanes_is_eight : FEATURE_LANES_SIZE = 8%N`, which stops compiling if the constant changes. *)
+Definition LANES : nat := N.to_nat FEATURE_LANES_SIZE.
 
 Section Pack.
   Variable A : Type.
